@@ -123,6 +123,14 @@ pub fn expected_part(p: &Part) -> Option<String> {
             }
             Some(format!("[{}]", f.join(", ")))
         }
+        Part::ClosureNested { a, b, form } => {
+            let (a, b) = (mk(*a), mk(*b));
+            Some(match form % 4 {
+                0 | 3 => format!("[{a}, [{b}]]"),
+                1 => format!("[{a}, 7]"),
+                _ => format!("[{a}, 8]"),
+            })
+        }
         Part::FilterBin { sizes, pick } => {
             let k = sizes.len();
             let want = sizes[(*pick as usize) % k];
@@ -276,6 +284,8 @@ pub fn run(ctx: &Ctx) -> i32 {
                         Part::TwoFilters { .. } => stats.class("two-filter-sources-with-arrivals"),
                         Part::FilterBin { .. } => stats.class("filter-rejects-then-later-receive"),
                         Part::MailboxLeftover { .. } => stats.class("binaries-left-in-mailbox"),
+                        Part::ClosureNested { .. } => stats.class("binary-nested-in-captured-tuple-or-closure-crosses-process"),
+                        Part::PrioFilter { .. } => stats.class("higher-priority-source-before-a-filtered-receive"),
                         _ => {}
                     }
                 }
@@ -318,7 +328,7 @@ pub fn run(ctx: &Ctx) -> i32 {
             "built with debug assertions, so the runtime's own use-after-free / underflow / completion checks surface as caught panics and are attributed to this property".into(),
             "REPL local compaction is exercised by the C11 check with the same invariant".into(),
         ],
-        required_classes: vec!["quantum-1", "two-heap-binaries-cross-one-spawn", "captures-plus-heap-argument", "finished-process-awaited-twice-with-heap-result", "two-filter-sources-with-arrivals", "slot-reclaimed-and-reused-while-others-live", "binaries-left-in-mailbox"],
+        required_classes: vec!["quantum-1", "two-heap-binaries-cross-one-spawn", "captures-plus-heap-argument", "finished-process-awaited-twice-with-heap-result", "two-filter-sources-with-arrivals", "slot-reclaimed-and-reused-while-others-live", "binaries-left-in-mailbox", "binary-nested-in-captured-tuple-or-closure-crosses-process", "higher-priority-source-before-a-filtered-receive"],
         started,
         technique: "proptest-generated binary-heavy process systems x schedules in the deterministic simulator; oracle = heap-accounting invariants after every worker step + byte-content model",
     })
